@@ -311,55 +311,76 @@ Section Proofs.
       replace (95 + Z.of_nat (S k) - 95) with (Z.of_nat (S k)) by lia. apply Nat2Z.id.
   Qed.
 
-  Lemma wf_data_no_label : forall asm l, wf_data asm = true -> ~ In (ILabel l) asm.
+  Lemma wf_data_no_head : forall asm h, wf_data asm = true -> In h asm -> is_head tbl h = false.
   Proof.
-    induction asm as [| it r IH]; intros l W I; [inv I |].
-    destruct I as [-> | I]; [discriminate W |].
-    destruct it; try discriminate W; eapply IH; eauto.
+    induction asm as [| it r IH]; intros h W I; [inv I |].
+    destruct I as [-> | I].
+    - destruct h; try discriminate W; reflexivity.
+    - destruct it; try discriminate W; eapply IH; eauto.
   Qed.
 
   Hypothesis jumpdest_byte : slookup tbl "JUMPDEST" = Some 0x5b.
 
-  Lemma scan_reaches_label : forall cm sm asm pend bs pc p l s,
-    wf_code tbl cm pend asm = true -> emit sm cm asm = Ok bs -> asm = p ++ ILabel l :: s ->
+  Lemma head_emits_nonempty : forall sm cm h bi,
+    is_head tbl h = true -> emit_item sm cm h = Ok bi -> exists b rest, bi = b :: rest.
+  Proof.
+    intros sm cm h bi HD Ei.
+    destruct h as [nm | n | l | l | l o | c o | db | l | l | c v]; try discriminate HD; cbn in Ei, HD.
+    - destruct (String.eqb nm "DEBUG"); [discriminate HD |]. destruct (slookup tbl nm); inv Ei. eauto.
+    - apply bind_ok in Ei as (v & _ & Ei). apply push_n2_explicit in Ei as (_ & ->). eauto.
+    - rewrite jumpdest_byte in Ei. inv Ei. eauto.
+    - apply bind_ok in Ei as (v & _ & Ei). apply push_n2_explicit in Ei as (_ & ->). eauto.
+    - apply bind_ok in Ei as (v & _ & Ei). inv Ei. unfold push_bytes. eauto.
+  Qed.
+
+  Lemma scan_reaches_head : forall cm sm asm pend bs pc p h s, is_head tbl h = true ->
+    wf_code tbl cm pend asm = true -> emit sm cm asm = Ok bs -> asm = p ++ h :: s ->
     exists bp, emit sm cm p = Ok bp /\ In (pc + zlen bp) (scan pend bs pc).
   Proof.
-    intros cm sm. induction asm as [| it r IH]; intros pend bs pc p l s W E S.
+    intros cm sm asm pend bs pc p h s HD. revert pend bs pc p s.
+    induction asm as [| it r IH]; intros pend bs pc p s W E S.
     - destruct p; discriminate S.
     - apply emit_cons in E as (bi & br & Ei & Er & ->).
       destruct p as [| it' p'].
       + (* the label is the head *)
         inv S. exists []. split; [reflexivity |]. rewrite zlen_nil, Z.add_0_r.
-        destruct pend; [| discriminate W].
-        cbn in Ei. rewrite jumpdest_byte in Ei. inv Ei. cbn. left. reflexivity.
+        destruct pend; [| destruct h; try discriminate W; discriminate HD].
+        assert (exists b rest, bi = b :: rest) as (b & rest & ->).
+        { destruct h as [nm | n | l | l | l o | c o | db | l | l | c v]; try discriminate HD; cbn in Ei, HD.
+          - destruct (String.eqb nm "DEBUG"); [discriminate HD |]. destruct (slookup tbl nm); inv Ei. eauto.
+          - apply bind_ok in Ei as (v & _ & Ei). apply push_n2_explicit in Ei as (_ & ->). eauto.
+          - rewrite jumpdest_byte in Ei. inv Ei. eauto.
+          - apply bind_ok in Ei as (v & _ & Ei). apply push_n2_explicit in Ei as (_ & ->). eauto.
+          - apply bind_ok in Ei as (v & _ & Ei). inv Ei. unfold push_bytes. eauto. }
+        cbn [app scan In]. left. reflexivity.
       + inv S.
         destruct pend as [| pd].
         * destruct it'; cbn [wf_code] in W; try discriminate W.
           -- (* IOp *)
              cbn in Ei. destruct (String.eqb s0 "DEBUG") eqn:D.
-             ++ inv Ei. destruct (IH _ _ pc _ _ _ W Er eq_refl) as (bp & Ep & I).
+             ++ inv Ei. destruct (IH _ _ pc _ _ W Er eq_refl) as (bp & Ep & I).
                 exists bp. split; [cbn [Asm.emit]; cbn; rewrite D; rewrite Ep; reflexivity |]. assumption.
              ++ unfold op_width in W. destruct (slookup tbl s0) as [b0 |] eqn:SL; inv Ei.
-                destruct (IH _ _ (pc + 1) _ _ _ W Er eq_refl) as (bp & Ep & I).
+                destruct (IH _ _ (pc + 1) _ _ W Er eq_refl) as (bp & Ep & I).
                 exists (b0 :: bp). split.
                 { cbn [Asm.emit]. cbn. rewrite D, SL, Ep. reflexivity. }
                 cbn [app scan In]. right. rewrite zlen_cons. replace (pc + (1 + zlen bp)) with (pc + 1 + zlen bp) by lia. assumption.
           -- (* IPushLabel *)
              pose proof Ei as Ei'. apply pushlabel_value_model in Ei' as (off & _ & _ & -> & _).
-             destruct (IH _ _ (pc + 3) _ _ _ W Er eq_refl) as (bp & Ep & I).
+             destruct (IH _ _ (pc + 3) _ _ W Er eq_refl) as (bp & Ep & I).
              eexists. split; [cbn [Asm.emit]; rewrite Ei, Ep; reflexivity |].
              cbn [app scan]. change (push_width 97) with 2%nat. cbn [scan In]. right.
              rewrite !zlen_cons. replace (pc + (1 + (1 + (1 + zlen bp)))) with (pc + 3 + zlen bp) by lia.
              replace (pc + 1 + 1 + 1) with (pc + 3) by lia. assumption.
           -- (* ILabel *)
              cbn in Ei. rewrite jumpdest_byte in Ei. inv Ei.
-             destruct (IH _ _ (pc + 1) _ _ _ W Er eq_refl) as (bp & Ep & I).
+             destruct (IH _ _ (pc + 1) _ _ W Er eq_refl) as (bp & Ep & I).
              exists (91 :: bp). split; [cbn [Asm.emit]; cbn; rewrite jumpdest_byte, Ep; reflexivity |].
              cbn [app scan]. change (push_width 91) with 0%nat. cbn [In]. right.
              rewrite zlen_cons. replace (pc + (1 + zlen bp)) with (pc + 1 + zlen bp) by lia. assumption.
           -- (* IPushOfstL *)
              pose proof Ei as Ei'. apply push_ofst_label_value_model in Ei' as (off & _ & _ & -> & _).
-             destruct (IH _ _ (pc + 3) _ _ _ W Er eq_refl) as (bp & Ep & I).
+             destruct (IH _ _ (pc + 3) _ _ W Er eq_refl) as (bp & Ep & I).
              eexists. split; [cbn [Asm.emit]; rewrite Ei, Ep; reflexivity |].
              cbn [app scan]. change (push_width 97) with 2%nat. cbn [scan In]. right.
              rewrite !zlen_cons. replace (pc + (1 + (1 + (1 + zlen bp)))) with (pc + 3 + zlen bp) by lia.
@@ -371,26 +392,23 @@ Section Proofs.
              rewrite L in L'. inv L'. destruct (Sh ltac:(lia)) as (imm & -> & _ & Li & _).
              assert (List.length imm <= 32)%nat as L32.
              { rewrite Li. apply push_width_le_32; lia. }
-             destruct (IH _ _ (pc + 1 + zlen imm) _ _ _ W Er eq_refl) as (bp & Ep & I).
+             destruct (IH _ _ (pc + 1 + zlen imm) _ _ W Er eq_refl) as (bp & Ep & I).
              eexists. split; [cbn [Asm.emit]; rewrite Ei, Ep; reflexivity |].
              rewrite <- app_comm_cons. cbn [scan In]. right.
              replace (push_width (PUSH_OFFSET + zlen imm)) with (List.length imm)
                by (unfold zlen; symmetry; apply push_width_push; assumption).
              rewrite scan_skip. rewrite zlen_cons, zlen_app.
              replace (pc + (1 + (zlen imm + zlen bp))) with (pc + 1 + zlen imm + zlen bp) by lia. assumption.
-          -- (* IDataBytes *) exfalso. eapply (wf_data_no_label (IDataBytes bs :: p' ++ ILabel l :: s) l W).
-             right. apply in_or_app. right. left. reflexivity.
-          -- exfalso. eapply (wf_data_no_label (IDataLabel l0 :: p' ++ ILabel l :: s) l W).
-             right. apply in_or_app. right. left. reflexivity.
-          -- exfalso. eapply (wf_data_no_label (IDataHeader l0 :: p' ++ ILabel l :: s) l W).
-             right. apply in_or_app. right. left. reflexivity.
+          -- (* IDataBytes *) exfalso. pose proof (wf_data_no_head _ h W ltac:(right; apply in_or_app; right; left; reflexivity)) as X. congruence.
+          -- exfalso. pose proof (wf_data_no_head _ h W ltac:(right; apply in_or_app; right; left; reflexivity)) as X. congruence.
+          -- exfalso. pose proof (wf_data_no_head _ h W ltac:(right; apply in_or_app; right; left; reflexivity)) as X. congruence.
           -- (* IConst *)
-             cbn in Ei. inv Ei. destruct (IH _ _ pc _ _ _ W Er eq_refl) as (bp & Ep & I).
+             cbn in Ei. inv Ei. destruct (IH _ _ pc _ _ W Er eq_refl) as (bp & Ep & I).
              exists bp. split; [cbn [Asm.emit]; cbn; rewrite Ep; reflexivity |]. assumption.
         * (* pending immediates: only ints *)
           destruct it'; cbn [wf_code] in W; try discriminate W.
           cbn in Ei. destruct ((0 <=? n) && (n <? 256)) eqn:B; inv Ei.
-          destruct (IH _ _ (pc + 1) _ _ _ W Er eq_refl) as (bp & Ep & I).
+          destruct (IH _ _ (pc + 1) _ _ W Er eq_refl) as (bp & Ep & I).
           exists (n :: bp). split; [cbn [Asm.emit]; cbn; rewrite B, Ep; reflexivity |].
           cbn [app scan]. rewrite zlen_cons. replace (pc + (1 + zlen bp)) with (pc + 1 + zlen bp) by lia. assumption.
   Qed.
@@ -413,7 +431,7 @@ Section Proofs.
     exists (zlen bp). split; [assumption |].
     pose proof H as H'. apply assemble_inv in H' as (sm0 & pc & C & _ & _ & E).
     unfold wf_asm in W. rewrite C in W.
-    destruct (scan_reaches_label cm sm _ O bs 0 p l s W E eq_refl) as (bp' & Ep' & In').
+    destruct (scan_reaches_head cm sm _ O bs 0 p (ILabel l) s eq_refl W E eq_refl) as (bp' & Ep' & In').
     rewrite Ep in Ep'. inv Ep'. split; [| exact In'].
     destruct (item_bytes_at_model _ _ _ _ _ _ _ H eq_refl) as (bp & bi & bsuf & -> & Ep2 & Ei & _).
     rewrite Ep in Ep2. inv Ep2. cbn in Ei. rewrite jumpdest_byte in Ei. inv Ei.
